@@ -20,8 +20,14 @@ UTF = S("update_train_formation")
 def only_loop_controls(fd, ins):
     """controlling conditions of `ins` other than loop iteration (iterator next()) and pattern matches on the loop element"""
     other = []
+    ret_blocks = {i.bb for i in fd.body.instrs() if i.kind == "return"}
     for sw, cal, d in controlling_sources(fd, ins):
         if d is not None and d.kind == "call" and (d.decl == NEXT or d.callee == NEXT or (d.callee or "").endswith("::next")):
+            continue
+        # a test whose other outcomes never come back (they end in a panic: `match node { Service(s) => s, _ => panic!() }` of an
+        # accessor that was inlined) skips nothing
+        alive = [t for t in fd.cfg.succ[sw.bb] if fd.cfg.reachable_from(t) & ret_blocks]
+        if len(alive) <= 1:
             continue
         other.append((sw, cal, d))
     return other
